@@ -327,6 +327,7 @@ _FLOATFN = {
     "nonneg": lambda x: x,
     "remainder": lambda a, b: a - b * math.floor(a / b),
     "fmod": math.fmod,
+    "softplus_thr": lambda x, t: x if x > t else math.log1p(math.exp(x)),
 }
 
 
